@@ -97,21 +97,6 @@ Lemma run_RSkip : forall f s src gs cs a,
   end.
 Proof. reflexivity. Qed.
 
-(* ---------- pattern well-formedness on lists ---------- *)
-Definition pwfl (l : list pnode) : bool := forallb pwf l.
-
-Lemma pwf_int : forall k cs, pwf (PInt k cs) = true -> cs <> [] /\ pwfl cs = true.
-Proof.
-  intros k cs H. cbn [pwf] in H. apply andb_true_iff in H. destruct H as [H1 H2]. split.
-  - destruct cs; [discriminate H1|discriminate].
-  - clear H1. induction cs as [|x r IHr]; [reflexivity|].
-    cbn [pwfl forallb]. apply andb_true_iff in H2. destruct H2 as [Ha Hb].
-    rewrite Ha. cbn [andb]. apply IHr. exact Hb.
-Qed.
-
-Lemma pwfl_cons : forall g gs, pwfl (g :: gs) = true -> pwf g = true /\ pwfl gs = true.
-Proof. intros g gs H. cbn [pwfl forallb] in H. apply andb_true_iff in H. exact H. Qed.
-
 (* ---------- facts about the strictness tables ---------- *)
 Definition node_post (s : strictness) (src : str) (g : pnode) (c : tree) (o : res) : Prop :=
   match o with
@@ -228,13 +213,6 @@ Proof.
 Qed.
 
 (* ---------- the soundness invariant over all requests ---------- *)
-Definition goals_ok (r : req) : Prop :=
-  match r with
-  | RNode g _ => pwf g = true
-  | RList gs _ | RLoop gs _ => gs <> [] /\ pwfl gs = true
-  | RLook _ _ _ gs _ | RSkip gs _ => pwfl gs = true
-  end.
-
 Definition post (s : strictness) (src : str) (r : req) (o : res) : Prop :=
   match r with
   | RNode g c => node_post s src g c o
@@ -244,10 +222,10 @@ Definition post (s : strictness) (src : str) (r : req) (o : res) : Prop :=
   end.
 
 Definition sound_at (s : strictness) (src : str) (f : nat) : Prop :=
-  forall r e o a', goals_ok r -> run f s src r (AEnv e) = (o, a') -> is_env a' /\ post s src r o.
+  forall r e o a', run f s src r (AEnv e) = (o, a') -> is_env a' /\ post s src r o.
 
 Lemma tail_sound : forall s src f, sound_at s src f ->
-  forall gs' cs' e o a', pwfl gs' = true ->
+  forall gs' cs' e o a',
   tailf f s src gs' cs' (AEnv e) = (o, a') ->
   is_env a' /\
   (o = ROk true ->
@@ -256,27 +234,27 @@ Lemma tail_sound : forall s src f, sound_at s src f ->
    | _ :: gs1 => AlignedL s src gs1 (tl cs')
    end).
 Proof.
-  intros s src f IH gs' cs' e o a' Hl H. unfold tailf in H. destruct gs' as [|g gs1].
+  intros s src f IH gs' cs' e o a' H. unfold tailf in H. destruct gs' as [|g gs1].
   - inversion H; subst. split; [apply is_env_env|]. intros Ho. injection Ho as Ho'.
     apply trailing_done. exact Ho'.
-  - cbv zeta in H. apply pwfl_cons in Hl. destruct Hl as [_ Hl1]. destruct gs1 as [|g1 gs1'].
+  - cbv zeta in H. destruct gs1 as [|g1 gs1'].
     + inversion H; subst. split; [apply is_env_env|]. intros Ho. injection Ho as Ho'.
       apply AL_done. apply trailing_done. exact Ho'.
     + destruct (tl cs') as [|c1 cs1'] eqn:Etl.
       * inversion H; subst. split; [apply is_env_env|discriminate].
-      * apply IH in H; [|split; [discriminate|exact Hl1]]. exact H.
+      * apply IH in H. exact H.
 Qed.
 
 Ltac fail_case H := inversion H; subst; split; [apply is_env_env|discriminate].
 
 Lemma sound_all : forall s src fuel, sound_at s src fuel.
 Proof.
-  intros s src fuel. induction fuel as [|f IH]; intros r e o a' Hok H.
+  intros s src fuel. induction fuel as [|f IH]; intros r e o a' H.
   - cbn [run] in H. inversion H; subst. split; [apply is_env_env|].
     destruct r; cbn; try discriminate; exact I.
   - destruct r as [g c|gs cs|gs cs|name mrev sk gs cs|gs cs].
     + (* RNode *)
-      cbn [goals_ok] in Hok. cbn [post]. destruct g as [mv|text nm k|k gcs]; cbn [run] in H.
+      cbn [post]. destruct g as [mv|text nm k|k gcs]; cbn [run] in H.
       * cbn [agg_meta] in H.
         destruct (match_leaf_meta_var src mv c e) as [e1|] eqn:E; cbn [option_map] in H;
           inversion H; subst; (split; [apply is_env_env|]); cbn [node_post]; [|exact I].
@@ -284,21 +262,21 @@ Proof.
       * pose proof (st_term_post s src nm text k c) as P.
         destruct (st_match_terminal s src nm text k c); cbn [agg_terminal] in H;
           inversion H; subst; (split; [apply is_env_env|exact P]).
-      * destruct (pwf_int _ _ Hok) as [Hne Hl].
-        destruct (kinds_matching k (kind c)) eqn:Ek.
+      * destruct (kinds_matching k (kind c)) eqn:Ek.
         -- destruct (run f s src (RList gcs (children c)) (AEnv e)) as [o1 a1] eqn:E1.
-           apply IH in E1; [|split; assumption]. destruct E1 as [Henv P]. cbn [post] in P.
+           apply IH in E1. destruct E1 as [Henv P]. cbn [post] in P.
            destruct o1 as [x|b|]; [|destruct b|]; inversion H; subst; (split; [exact Henv|]);
              cbn [node_post]; try exact I.
            apply A_int; [exact Ek|apply P; reflexivity].
         -- inversion H; subst. split; [apply is_env_env|exact I].
     + (* RList *)
       cbn [run] in H. destruct cs as [|c cs1]; [fail_case H|].
-      apply IH in H; [|exact Hok]. exact H.
+      apply IH in H. exact H.
     + (* RLoop *)
-      cbn [goals_ok] in Hok. destruct Hok as [Hne Hl]. cbn [post].
-      destruct gs as [|g gs1]; [contradiction Hne; reflexivity|]. cbn [run] in H.
-      pose proof Hl as Hl0. apply pwfl_cons in Hl. destruct Hl as [Hg Hl1].
+      cbn [post]. destruct gs as [|g gs1]; cbn [run] in H.
+      { (* a pattern node without children: all (zero) goals found, trailing check *)
+        inversion H; subst. split; [apply is_env_env|]. intros Ho. injection Ho as Ho'.
+        apply AL_done. apply trailing_done. exact Ho'. }
       destruct (ellipsis_mode g) as [name|] eqn:Eg.
       * pose proof (ellipsis_mode_is _ _ Eg) as Hell.
         destruct gs1 as [|g1 gs1'].
@@ -310,9 +288,6 @@ Proof.
            assert (Hskip : forall cs', AlignedL s src gs2 cs' -> AlignedL s src (g1 :: gs1') cs').
            { rewrite Etr. intros cs' HA. apply AlignedL_skip_goals; [|exact HA].
              revert Htr. apply forallb_imp. apply trivial_may_stay. }
-           assert (Hl2 : pwfl gs2 = true).
-           { unfold pwfl in Hl1 |- *. rewrite Etr in Hl1. rewrite forallb_app in Hl1.
-             apply andb_true_iff in Hl1. destruct Hl1 as [_ Hl1]. exact Hl1. }
            destruct gs2 as [|g2 gs2'].
            ++ split; [eapply fin_env; eassumption|]. intros _. rewrite <- (app_nil_r cs).
               apply AL_ellipsis; [exact Hell|]. apply Hskip. apply AlignedL_nil_nil.
@@ -321,23 +296,22 @@ Proof.
                  destruct cs1 as [|c1 cs1']; [fail_case H|].
                  destruct (agg_ellipsis src (AEnv e) name [c] skipped) as [a1|] eqn:Ea; [|fail_case H].
                  destruct (agg_ellipsis_env _ _ _ _ _ _ Ea) as [e1 ->].
-                 apply IH in H; [|split; [discriminate|exact Hl2]]. destruct H as [Henv P].
+                 apply IH in H. destruct H as [Henv P].
                  split; [exact Henv|]. intros Ho. cbn [post] in P.
                  change (c :: c1 :: cs1') with ([c] ++ (c1 :: cs1')).
                  apply AL_ellipsis; [exact Hell|]. apply Hskip. apply P. exact Ho.
-              ** apply IH in H; [|exact Hl2]. destruct H as [Henv P].
+              ** apply IH in H. destruct H as [Henv P].
                  split; [exact Henv|]. intros Ho. cbn [post] in P.
                  destruct (P Ho) as [rn [rest [-> HA]]].
                  apply AL_ellipsis; [exact Hell|]. apply Hskip. exact HA.
-      * apply IH in H; [|exact Hl0]. exact H.
+      * apply IH in H. exact H.
     + (* RLook *)
-      cbn [goals_ok] in Hok. cbn [post]. cbn [run] in H.
+      cbn [post]. cbn [run] in H.
       destruct gs as [|g gs']; [fail_case H|].
       destruct cs as [|c cs1]; [fail_case H|].
       cbv beta iota in H.
-      destruct (pwfl_cons _ _ Hok) as [Hg _].
       destruct (run f s src (RNode g c) (AEnv e)) as [o1 a1] eqn:E1.
-      apply IH in E1; [|exact Hg]. destruct E1 as [[e1 ->] P1]. cbn [post] in P1.
+      apply IH in E1. destruct E1 as [[e1 ->] P1]. cbn [post] in P1.
       assert (Hcont :
         match cs1 with
         | [] => (ROk false, AEnv e1)
@@ -346,46 +320,45 @@ Proof.
         is_env a' /\
         (o = ROk true -> exists rn rest, c :: cs1 = rn ++ rest /\ AlignedL s src (g :: gs') rest)).
       { intros H'. destruct cs1 as [|c1 cs1']; [fail_case H'|].
-        apply IH in H'; [|exact Hok]. destruct H' as [Henv P]. split; [exact Henv|].
+        apply IH in H'. destruct H' as [Henv P]. split; [exact Henv|].
         intros Ho. cbn [post] in P. destruct (P Ho) as [rn [rest [E HA]]].
         exists (c :: rn), rest. split; [rewrite E; reflexivity|exact HA]. }
       destruct o1 as [x|b|]; [destruct x| |]; try (apply Hcont; exact H).
       * destruct (agg_ellipsis src (AEnv e1) name (rev mrev) sk) as [a2|] eqn:Ea; [|fail_case H].
         destruct (agg_ellipsis_env _ _ _ _ _ _ Ea) as [e2 ->].
-        apply IH in H; [|exact Hok]. destruct H as [Henv P]. split; [exact Henv|].
+        apply IH in H. destruct H as [Henv P]. split; [exact Henv|].
         intros Ho. cbn [post] in P. exists [], (c :: cs1). split; [reflexivity|apply P; exact Ho].
       * fail_case H.
     + (* RSkip *)
-      cbn [goals_ok] in Hok. cbn [post]. rewrite run_RSkip in H.
+      cbn [post]. rewrite run_RSkip in H.
       destruct cs as [|c cs1].
       * destruct (should_skip_goal s gs) eqn:Esk; [|fail_case H].
         cbn [tailf] in H. inversion H; subst. split; [apply is_env_env|]. intros _.
         apply skippable_all_aligned. exact Esk.
       * destruct gs as [|g gs1]; [fail_case H|].
-        destruct (pwfl_cons _ _ Hok) as [Hg Hl1].
         destruct (run f s src (RNode g c) (AEnv e)) as [o1 a1] eqn:E1.
-        apply IH in E1; [|exact Hg]. destruct E1 as [[e1 ->] P1]. cbn [post] in P1.
+        apply IH in E1. destruct E1 as [[e1 ->] P1]. cbn [post] in P1.
         destruct o1 as [x|b|]; [destruct x| |]; cbn [node_post] in P1.
         -- (* MatchedBoth *)
-           apply (tail_sound s src f IH) in H; [|exact Hok]. destruct H as [Henv P].
+           apply (tail_sound s src f IH) in H. destruct H as [Henv P].
            split; [exact Henv|]. intros Ho. apply AL_match; [exact P1|exact (P Ho)].
         -- (* SkipBoth *)
            destruct P1 as [Pg Pc]. destruct gs1 as [|g1 gs1'].
-           ++ apply (tail_sound s src f IH) in H; [|reflexivity]. destruct H as [Henv P].
+           ++ apply (tail_sound s src f IH) in H. destruct H as [Henv P].
               split; [exact Henv|]. intros Ho. apply AL_skip_cand; [exact Pc|].
               apply AL_skip_goal; [exact Pg|]. apply AL_done. exact (P Ho).
-           ++ apply IH in H; [|exact Hl1]. destruct H as [Henv P].
+           ++ apply IH in H. destruct H as [Henv P].
               split; [exact Henv|]. intros Ho. apply AL_skip_cand; [exact Pc|].
               apply AL_skip_goal; [exact Pg|]. exact (P Ho).
         -- (* SkipGoal *)
            destruct gs1 as [|g1 gs1'].
-           ++ apply (tail_sound s src f IH) in H; [|reflexivity]. destruct H as [Henv P].
+           ++ apply (tail_sound s src f IH) in H. destruct H as [Henv P].
               split; [exact Henv|]. intros Ho.
               apply AL_skip_goal; [exact P1|]. apply AL_done. exact (P Ho).
-           ++ apply IH in H; [|exact Hl1]. destruct H as [Henv P].
+           ++ apply IH in H. destruct H as [Henv P].
               split; [exact Henv|]. intros Ho. apply AL_skip_goal; [exact P1|]. exact (P Ho).
         -- (* SkipCandidate *)
-           apply IH in H; [|exact Hok]. destruct H as [Henv P].
+           apply IH in H. destruct H as [Henv P].
            split; [exact Henv|]. intros Ho. apply AL_skip_cand; [exact P1|]. exact (P Ho).
         -- fail_case H.
         -- fail_case H.
@@ -394,20 +367,20 @@ Qed.
 
 Lemma C03_sound : C03_sound_stmt.
 Proof.
-  intros fuel s src g c e a' Hp H.
-  destruct (sound_all s src fuel (RNode g c) e _ _ Hp H) as [_ P]. exact P.
+  intros fuel s src g c e a' H.
+  destruct (sound_all s src fuel (RNode g c) e _ _ H) as [_ P]. exact P.
 Qed.
 Print Assumptions C03_sound.
 
 Lemma C03_sound_pattern : C03_sound_pattern_stmt.
 Proof.
-  intros src p c e e' Hp H. unfold pattern_match in H.
+  intros src p c e e' H. unfold pattern_match in H.
   destruct (p_root_kind p) as [k|]; [destruct (negb (N.eqb (kind c) k)); [discriminate H|]|];
     (destruct (run (match_fuel (p_node p) c) (p_strict p) src (RNode (p_node p) c) (AEnv e))
        as [o a] eqn:E;
      destruct o as [x|b|]; [destruct x| |]; try discriminate H;
      destruct a as [e1|m]; try discriminate H;
-     exact (C03_sound _ _ _ _ _ _ _ Hp E)).
+     exact (C03_sound _ _ _ _ _ _ _ E)).
 Qed.
 Print Assumptions C03_sound_pattern.
 
@@ -663,7 +636,7 @@ Qed.
 
 Lemma C03_len : C03_len_stmt.
 Proof.
-  intros src p c n _ Hw H.
+  intros src p c n Hw H.
   destruct (match_len_end src p c n H) as [m [Hlt [-> [->|[d [Hd Ht]]]]]].
   - lia.
   - destruct (wfb_desc (size c) c d (le_n _) Hw Hd) as [A [B C]].
